@@ -128,7 +128,11 @@ type PaintSnap struct {
 	Probe       []color.RGBA64 // At() at fixed probe pixels
 }
 
-var probePts = []image.Point{{0, 0}, {1, 0}, {0, 1}, {7, 5}, {16, 16}, {31, 2}, {-3, 9}, {200, -100}}
+// The probe sequence ends on the row and on the column on which it begins:
+// a paint that caches something per row (or per column) across calls then
+// carries it from the last probe of one paint into the first probe of the
+// next one, which is where a stale cache shows.
+var probePts = []image.Point{{0, 0}, {1, 0}, {0, 1}, {7, 5}, {16, 16}, {31, 2}, {-3, 9}, {200, -100}, {0, 3}, {5, 0}, {0, 0}}
 
 func rgba64Of(c color.Color) color.RGBA64 {
 	r, g, b, a := c.RGBA()
